@@ -12,8 +12,7 @@ Theorem C07_clients_mirror : forall tag_key score l,
 Proof. exact clients_mirror. Qed.
 Print Assumptions C07_clients_mirror.
 
-(* A document whose operations are well typed (mapping nodes, named parameters, string response
-   keys, list tags, non-empty derived id) loses no operation in parse_operations.  FULL on the model
+(* A document whose operations are well typed (mapping nodes, named parameters, mapping response nodes under any key, list tags, non-empty derived id) loses no operation in parse_operations.  FULL on the model
    of the explicit raise conditions. *)
 Theorem C07_none_dropped : forall method_name clean_id st doc,
   typed_doc method_name clean_id st doc ->
@@ -41,6 +40,28 @@ Theorem C07_dedup_fix : forall method_name l,
 Proof. exact dedup_fix. Qed.
 Print Assumptions C07_dedup_fix.
 
+(* F07a fixed.  For EVERY operation list: whenever the suffix search succeeds within the model bound
+   (|used|+1 candidates; it always does when different suffixes sanitise to different names), the
+   de-duplicated method names are pairwise distinct, and the pass is idempotent, so the second emit()
+   of the direct path changes nothing. *)
+Theorem C07_names_unique : forall method_name l, dedup_total method_name l = true ->
+  emitted_ops method_name l = dedup_ops method_name l
+  /\ NoDup (map (fun o => method_name (o_id o)) (emitted_ops method_name l)).
+Proof. exact emitted_unique. Qed.
+Print Assumptions C07_names_unique.
+
+(* F07c fixed.  FULL: for every operation list with distinct (METHOD, path) pairs and every
+   normalisation function, each operation is exactly once in the group of each of its tags, however the
+   tags are spelled; and globally unique method names are unique per client. *)
+Theorem C07_once_per_tag : forall tag_key l, distinct_ops l -> once_per_tag tag_key l.
+Proof. exact once_per_tag_full. Qed.
+Print Assumptions C07_once_per_tag.
+
+Theorem C07_names_unique_per_client : forall method_name tag_key e,
+  NoDup (map (fun o => method_name (o_id o)) e) -> names_unique method_name tag_key e.
+Proof. exact names_unique_full. Qed.
+Print Assumptions C07_names_unique_per_client.
+
 (* names follow the strategy: position by position, an emitted operation is the parsed one with
    id = derive_id strategy op, followed by at most two "_<k>" suffixes (one per de-dup pass) *)
 Theorem C07_strategy : forall method_name clean_id st doc,
@@ -52,16 +73,14 @@ Proof. exact strategy_shape. Qed.
 Print Assumptions C07_strategy.
 
 (* The property on the model under the guard: (METHOD, path) pairs distinct, no operation skipped
-   [F07b], one de-dup pass yields unique names [F07a], no operation carries two spellings of one tag
-   [F07c]  ==>  no operation is lost, each is exactly once in the group of each of its tags, method
+   [F07f], the de-dup search stays within the model bound  ==>  no operation is lost, each is exactly once in the group of each of its tags, method
    names are unique per client, and APIClient's tag table equals the emitter's.
    PARTIAL: the last step groups -> files/properties (distinct module names [F07d, F07e]) is tied to
    the code by the correspondence run only. *)
 Theorem C07_partial : forall method_name tag_key clean_id score st doc,
   doc_distinct doc ->
-  guard_F07b method_name clean_id st doc = true ->
-  guard_F07a method_name (parse method_name clean_id st doc) = true ->
-  guard_F07c tag_key (parse method_name clean_id st doc) = true ->
+  guard_F07f method_name clean_id st doc = true ->
+  dedup_total method_name (parse method_name clean_id st doc) = true ->
   let e := emitted_ops method_name (parse method_name clean_id st doc) in
   length e = length (ops doc)
   /\ once_per_tag tag_key e
@@ -72,36 +91,44 @@ Print Assumptions C07_partial.
 
 Theorem C07_guard_nonvacuous :
   doc_distinct doc_ok
-  /\ guard_F07b idf no_clean SOpId doc_ok = true
-  /\ guard_F07a idf (parse idf no_clean SOpId doc_ok) = true
-  /\ guard_F07c key_F07c (parse idf no_clean SOpId doc_ok) = true
+  /\ guard_F07f idf no_clean SOpId doc_ok = true
+  /\ dedup_total idf (parse idf no_clean SOpId doc_ok) = true
   /\ length (ops doc_ok) = 2%nat
   /\ map o_id (emitted_ops idf (parse idf no_clean SOpId doc_ok)) = [s_a; s_a ++ [95;50]].
 Proof. exact guard_nonvacuous. Qed.
 Print Assumptions C07_guard_nonvacuous.
 
 (* ---------- refutations of the unguarded statement (witnesses replayed on the code each run) ---------- *)
-Theorem C07_refuted_F07a :
-  guard_F07a idf ids_F07a = false /\ ~ names_unique idf idf (emitted_ops idf ids_F07a).
-Proof. exact refuted_F07a. Qed.
-Print Assumptions C07_refuted_F07a.
+(* regressions of the two fixed findings: the old witnesses now meet the spec *)
+Theorem C07_fixed_F07a :
+  map o_id (dedup_ops idf ids_F07a1) = [s_foo; s_foo_2; s_foo_2_2]
+  /\ dedup_ops idf (dedup_ops idf ids_F07a1) = dedup_ops idf ids_F07a1
+  /\ map o_id (emitted_ops idf ids_F07a) = [s_foo; s_foo_2; s_foo_2_2; s_foo_2_2 ++ [95;50]]
+  /\ dedup_total idf ids_F07a = true
+  /\ NoDup (map (fun o => idf (o_id o)) (emitted_ops idf ids_F07a)).
+Proof. exact fixed_F07a. Qed.
+Print Assumptions C07_fixed_F07a.
 
-Theorem C07_refuted_F07a_not_idempotent :
-  dedup_ops idf (dedup_ops idf ids_F07a1) <> dedup_ops idf ids_F07a1.
-Proof. exact dedup_not_idempotent. Qed.
-Print Assumptions C07_refuted_F07a_not_idempotent.
+Theorem C07_fixed_F07b :
+  guard_F07f idf no_clean SOpId doc_F07b = true
+  /\ length (parse idf no_clean SOpId doc_F07b) = length (ops doc_F07b)
+  /\ length (ops doc_F07b) = 2%nat.
+Proof. exact fixed_F07b. Qed.
+Print Assumptions C07_fixed_F07b.
 
-Theorem C07_refuted_F07b :
-  guard_F07b idf no_clean SOpId doc_F07b = false
-  /\ ~ visible_failure idf idf idf idf no_clean no_score (fun _ => true) SOpId doc_F07b
-  /\ length (parse idf no_clean SOpId doc_F07b) = 1%nat /\ length (ops doc_F07b) = 2%nat.
-Proof. exact refuted_F07b. Qed.
-Print Assumptions C07_refuted_F07b.
+Theorem C07_refuted_F07f :
+  guard_F07f idf no_clean SOpId doc_F07f = false
+  /\ ~ visible_failure idf idf idf idf no_clean no_score (fun _ => true) SOpId doc_F07f
+  /\ length (parse idf no_clean SOpId doc_F07f) = 1%nat /\ length (ops doc_F07f) = 2%nat.
+Proof. exact refuted_F07f. Qed.
+Print Assumptions C07_refuted_F07f.
 
-Theorem C07_refuted_F07c :
-  guard_F07c key_F07c [op_F07c] = false /\ ~ once_per_tag key_F07c [op_F07c].
-Proof. exact refuted_F07c. Qed.
-Print Assumptions C07_refuted_F07c.
+Theorem C07_fixed_F07c :
+  group key_F07c [op_F07c] = [(s_users, [op_F07c])]
+  /\ candidates key_F07c [op_F07c] = [(s_users, [s_Users; s_users])]
+  /\ once_per_tag key_F07c [op_F07c].
+Proof. exact fixed_F07c. Qed.
+Print Assumptions C07_fixed_F07c.
 
 Theorem C07_refuted_F07d :
   guard_F07d key_F07d ident_F07d ops_F07d = false
